@@ -2,7 +2,7 @@
 # usage: tools/try_mutant.sh <patch.diff> <PROP> [<PROP>...]
 # Applies a seeded change to /repo, runs the given checks, and always reverts /repo afterwards.
 set -u
-patch="$1"; shift
+patch="$(readlink -f "$1")"; shift
 cd /repo || exit 2
 if ! git apply --check "$patch" 2>/dev/null; then echo "PATCH DOES NOT APPLY: $patch"; exit 3; fi
 git apply "$patch"
